@@ -422,18 +422,28 @@ def _scatter(p):
         mi = geom.mask_from_code(n, c)
         ns = int(mi.sum())
         for frames in (1, 2):
-            for mdtype, ddtype in ((float, float), (numpy.int64, numpy.int64)):
-                if ddtype is not float and frames == 2:
+            # every way a 0/1 mask is commonly stored x slope dtype; the slopes are not whole numbers, so a
+            # result array that takes the mask's dtype truncates them
+            for mdtype, ddtype in ((float, float), (numpy.int64, numpy.int64), (numpy.int64, float), (bool, float),
+                                   (numpy.uint8, float), (numpy.float32, float), (float, numpy.float32),
+                                   (bool, numpy.complex128)):
+                if (mdtype, ddtype) != (float, float) and frames == 2:
                     continue
                 data = (1 + numpy.arange(ns)[None, None, :] + 100 * numpy.arange(2)[None, :, None]
-                        + 1000 * numpy.arange(frames)[:, None, None]).astype(ddtype)
+                        + 1000 * numpy.arange(frames)[:, None, None])
+                if ddtype is not numpy.int64:
+                    data = data + 0.37
+                if ddtype is numpy.complex128:
+                    data = data + 0.5j
+                data = data.astype(ddtype)
                 mask = mi.astype(mdtype)
                 out = numpy.asarray(wfslib.make_subaps_2d(data.copy(), mask.copy()))
                 o.stat("lib_calls", 1)
                 ok = out.shape == (frames, 2, n, n)
                 back = out[:, :, mi.astype(bool)] if ok else None
                 ok = ok and back.shape == data.shape and numpy.array_equal(back, data)
-                agg.add("scatter_gather_identity", "frames=%d:%s" % (frames, numpy.dtype(ddtype).name), ok,
+                agg.add("scatter_gather_identity", "frames=%d:%s:mask=%s" % (frames, numpy.dtype(ddtype).name,
+                                                                            numpy.dtype(mdtype).name), ok,
                         {"mask": mi, "code": c, "out": out})
     agg.flush(o)
     return o
